@@ -262,6 +262,8 @@ def main(argv=None):
             cex = []
             for res in pool.imap_unordered(_run, specs):
                 j = by_id[res["job"]]
+                if os.environ.get("VERIF_PROGRESS"):
+                    log("  .. %s %s paths=%s cpu=%.1fs %s" % (res["job"], res["verdict"], res.get("paths"), res.get("wall_s", 0), json.dumps(j["cube"])))
                 j.setdefault("history", []).append(res)
                 if res["verdict"] == "COUNTEREXAMPLE":
                     cex.append((j, res))
